@@ -88,6 +88,8 @@ func main() {
 	list := flag.Bool("list", false, "list properties and rules")
 	noSelf := flag.Bool("noselftest", false, "thorough without the mutant self-test")
 	dump := flag.Bool("dump", false, "print the registry as JSON (used by tools/gen_manifest.py)")
+	dumpFuncs := flag.Bool("dumpfuncs", false, "print the keys of all non-test module functions (regenerates checker/baseline_funcs.txt)")
+	all := flag.Bool("all", false, "development aid: load once, evaluate every property, print the obligations that do not hold (no evidence written)")
 	replay := flag.String("replay", "", "replay file written for a violation: re-evaluates that rule on the current tree")
 	flag.Parse()
 	if *replay != "" {
@@ -142,6 +144,25 @@ func main() {
 		*verif = filepath.Dir(filepath.Dir(exe))
 	}
 	seed, _ := strconv.Atoi(os.Getenv("VERIF_SEED"))
+	if *dumpFuncs {
+		abs, _ := filepath.Abs(*repo)
+		p, err := Load(LoadConfig{Dir: abs})
+		if err != nil {
+			fmt.Fprintln(os.Stderr, err)
+			os.Exit(2)
+		}
+		var ks []string
+		for _, f := range p.NonTestFuncs() {
+			ks = append(ks, f.Key)
+		}
+		sort.Strings(ks)
+		fmt.Println(strings.Join(ks, "\n"))
+		return
+	}
+	if *all {
+		abs, _ := filepath.Abs(*repo)
+		os.Exit(runAll(abs, *verif))
+	}
 	prop := registry[*propID]
 	if prop == nil {
 		fmt.Printf("unknown property %q\n", *propID)
@@ -330,4 +351,56 @@ func runSelfTest(prop *Property, repo string) map[string]any {
 	fmt.Printf("selftest: %d/%d applicable mutants caught (of %d)\n", caught, applicable, len(results))
 	return map[string]any{"mutants": len(results), "applicable": applicable, "caught": caught, "results": rows,
 		"note": "each mutant is a single-site edit of /repo's current source applied in memory (go/packages overlay); it must type-check and make the expected rule report a violation naming the mutated construct. Evidence about the checker only; it never changes the verdict on /repo."}
+}
+
+// runAll evaluates every registered property on one load of the repository and prints the
+// obligations that neither hold nor match a known finding. Used by tools/try_seed.sh and
+// tools/try_refactor.sh; writes nothing.
+func runAll(repo, verif string) int {
+	verifDir = verif
+	p, err := Load(LoadConfig{Dir: repo})
+	if err != nil {
+		fmt.Println("ALL: cannot load:", err)
+		return 1
+	}
+	kfs, _ := loadKnown(filepath.Join(verif, "known_findings.json"))
+	var ids []string
+	for id := range registry {
+		ids = append(ids, id)
+	}
+	sort.Strings(ids)
+	bad := 0
+	var hitProps []string
+	for _, id := range ids {
+		c := runRules(p, registry[id], "quick", "linux/amd64", "")
+		seen := map[string]bool{}
+		n := 0
+		for _, o := range c.Obs {
+			if o.Verdict != "violated" && o.Verdict != "undecided" {
+				continue
+			}
+			if o.Verdict == "violated" && matchKnown(kfs, id, o) != nil {
+				continue
+			}
+			if seen[o.Key()] {
+				continue
+			}
+			seen[o.Key()] = true
+			n++
+			d := o.Detail
+			if len(d) > 160 {
+				d = d[:160]
+			}
+			fmt.Printf("ALL %s %s %s: %s %s @%s — %s\n", id, strings.ToUpper(o.Verdict), o.Rule, o.Function, o.Construct, o.Pos, d)
+		}
+		if n > 0 {
+			bad += n
+			hitProps = append(hitProps, id)
+		}
+	}
+	fmt.Printf("ALL summary: %d non-holding obligations; properties alarmed: %s\n", bad, strings.Join(hitProps, ","))
+	if bad > 0 {
+		return 1
+	}
+	return 0
 }
